@@ -598,7 +598,7 @@ def insertSorted (x : Nat) : List Nat → List Nat
 def sortDedup (xs : List Nat) : List Nat := xs.foldr insertSorted []
 
 def finish : Out → Option Report
-  | .ok s => some (.success s.queue)
+  | .ok s => if reachedCallLimit s then some (.callLimit s.attemptPos) else some (.success s.queue)
   | .err s =>
     if reachedCallLimit s then some (.callLimit s.attemptPos)
     else some (.parsingError s.attemptPos (sortDedup s.posAtt) (sortDedup s.negAtt))
